@@ -70,7 +70,8 @@ func vGenSynBatch(prefix string, nSyn int, emptyTerm bool) ([]index.Document, *s
 					sp.add(th, t, s, uint64(1+d))
 				}
 			}
-			if len(syns) > 0 {
+			if len(syns) > 0 || (vParam("emptyDef", 0) == 1 && vBool(fmt.Sprint(prefix, "edef", d, "_", ti))) {
+				// (emptyDef: a term may be defined with an empty synonym list - it contributes nothing)
 				sf.terms = append(sf.terms, t)
 				sf.syns = append(sf.syns, syns)
 			}
